@@ -1383,3 +1383,344 @@ Qed.
 Theorem C09_produce_no_panic : forall cz tps acks timeout compression corr cid w,
   enc_produce_req cz corr cid acks timeout compression tps <> Panic w.
 Proof. intros. apply codec_only_panic. apply codec_only_produce. Qed.
+
+(* ======================================================================= *)
+(* 13. the converse for Metadata and GroupCoordinator                        *)
+(* ======================================================================= *)
+
+Theorem C09_metadata_ok_iff : forall topics corr cid,
+  (exists bs, enc_metadata_req corr cid topics = Ok bs) <->
+  ulen cid <= i16_max /\ ulen topics <= i32_max /\ Forall (fun t => ulen t <= i16_max) topics.
+Proof.
+  intros topics corr cid. unfold enc_metadata_req.
+  rewrite (bind_ok_iff _ _ (ulen topics <= i32_max /\ Forall (fun t => ulen t <= i16_max) topics)),
+    enc_header_ok_iff; [reflexivity|]. intros h.
+  rewrite (bind_ok_iff _ _ True); [|intros b; apply ok_ex_iff].
+  rewrite enc_array_ok_iff.
+  assert (Hiff : Forall (fun x => exists b, enc_str x = Ok b) topics <-> Forall (fun t => ulen t <= i16_max) topics).
+  { split; apply Forall_impl; intros t; apply enc_str_ok_iff. }
+  tauto.
+Qed.
+
+Theorem C09_group_coordinator_ok_iff : forall group corr cid,
+  (exists bs, enc_group_coordinator_req corr cid group = Ok bs) <-> ulen cid <= i16_max /\ ulen group <= i16_max.
+Proof.
+  intros group corr cid. unfold enc_group_coordinator_req.
+  rewrite (bind_ok_iff _ _ (ulen group <= i16_max)), enc_header_ok_iff; [reflexivity|]. intros h.
+  rewrite (bind_ok_iff _ _ True); [|intros b; apply ok_ex_iff].
+  rewrite enc_str_ok_iff. tauto.
+Qed.
+
+(* ======================================================================= *)
+(* 14. the correlation counter                                               *)
+(* ======================================================================= *)
+
+Theorem C09_corr_increases : forall s, 0 <= correlation s < CORRELATION_MODULUS - 1 ->
+  fst (next_correlation_id s) = correlation s + 1 /\
+  correlation (snd (next_correlation_id s)) = correlation s + 1.
+Proof.
+  intros s H. unfold CORRELATION_MODULUS in H. change (2 ^ 30) with 1073741824 in H.
+  unfold next_correlation_id. cbn [fst snd correlation].
+  unfold CORRELATION_MODULUS. change (2 ^ 30) with 1073741824.
+  rewrite Z.rem_small by lia. split; reflexivity.
+Qed.
+
+(* whatever the state, the id fits the int32 CorrelationId field *)
+Theorem C09_corr_in_i32 : forall s, in_i32 (fst (next_correlation_id s)).
+Proof.
+  intros s. unfold next_correlation_id. cbn [fst]. unfold CORRELATION_MODULUS. change (2 ^ 30) with 1073741824.
+  pose proof (Z.rem_bound_abs (correlation s + 1) 1073741824) as H. unfold in_i32. lia.
+Qed.
+
+(* the ids handed out by n successive calls *)
+Fixpoint corr_ids (n : nat) (s : cstate) : list Z :=
+  match n with
+  | O => []
+  | S k => fst (next_correlation_id s) :: corr_ids k (snd (next_correlation_id s))
+  end.
+
+Lemma corr_ids_eq : forall n s, 0 <= correlation s -> correlation s + Z.of_nat n < CORRELATION_MODULUS ->
+  corr_ids n s = map (fun i => correlation s + Z.of_nat i) (seq 1 n).
+Proof.
+  assert (Hm : CORRELATION_MODULUS = 1073741824) by reflexivity.
+  induction n as [|n IH]; intros s H0 Hn; [reflexivity|].
+  assert (Hr : 0 <= correlation s < CORRELATION_MODULUS - 1) by lia.
+  destruct (C09_corr_increases s Hr) as [Hid Hst].
+  cbn [corr_ids seq map]. rewrite Hid. apply (f_equal2 (@cons Z)); [lia|].
+  rewrite IH by (rewrite Hst; lia). rewrite Hst, <- (seq_shift n 1), map_map.
+  apply map_ext. intros i. lia.
+Qed.
+
+Lemma sorted_affine_seq c : forall n a,
+  StronglySorted Z.lt (map (fun i => c + Z.of_nat i) (seq a n)).
+Proof.
+  induction n as [|n IH]; intros a; cbn [seq map]; constructor; [apply IH|].
+  apply Forall_forall. intros z Hz. apply in_map_iff in Hz. destruct Hz as [i [<- Hi]].
+  apply in_seq in Hi. lia.
+Qed.
+
+Lemma sorted_lt_nodup (l : list Z) : StronglySorted Z.lt l -> NoDup l.
+Proof.
+  induction 1 as [|x l Hs IH Hall]; constructor; [|exact IH].
+  intros Hin. rewrite Forall_forall in Hall. specialize (Hall x Hin). lia.
+Qed.
+
+Theorem C09_corr_sequence : forall n s, 0 <= correlation s -> correlation s + Z.of_nat n < CORRELATION_MODULUS ->
+  corr_ids n s = map (fun i => correlation s + Z.of_nat i) (seq 1 n) /\
+  StronglySorted Z.lt (corr_ids n s) /\ NoDup (corr_ids n s).
+Proof.
+  intros n s H0 Hn. pose proof (corr_ids_eq n s H0 Hn) as E.
+  assert (Hs : StronglySorted Z.lt (corr_ids n s)) by (rewrite E; apply sorted_affine_seq).
+  split; [exact E|split; [exact Hs|apply sorted_lt_nodup; exact Hs]].
+Qed.
+
+(* at 2^30 - 1 the counter wraps: the next id is 0, smaller than its predecessor, so
+   "strictly increasing" cannot be claimed without the bound of C09_corr_sequence *)
+Theorem C09_corr_wrap_refuted : exists s, fst (next_correlation_id s) < correlation s.
+Proof.
+  exists {| correlation := 1073741823; brokers := []; topic_partitions := []; group_coordinators := [] |}.
+  vm_compute. reflexivity.
+Qed.
+
+Example C09_corr_wrap_value :
+  fst (next_correlation_id {| correlation := CORRELATION_MODULUS - 1; brokers := [];
+                              topic_partitions := []; group_coordinators := [] |}) = 0.
+Proof. vm_compute. reflexivity. Qed.
+
+Example C09_corr_sequence_ex : corr_ids 5 cstate_new = [1; 2; 3; 4; 5].
+Proof. vm_compute. reflexivity. Qed.
+Example C09_corr_sequence_hyps_ex : 0 <= correlation cstate_new /\ correlation cstate_new + Z.of_nat 5 < CORRELATION_MODULUS.
+Proof. vm_compute. split; [discriminate|reflexivity]. Qed.
+Example C09_corr_increases_ex : 0 <= correlation cstate_new < CORRELATION_MODULUS - 1.
+Proof. vm_compute. split; [discriminate|reflexivity]. Qed.
+
+(* ======================================================================= *)
+(* 15. Examples: the hypotheses are satisfiable and the grammar computes      *)
+(* ======================================================================= *)
+
+(* choose the witness of `exists bs, enc = Ok bs /\ ...` by computation *)
+Ltac ex_ok :=
+  match goal with
+  | |- exists bs, ?e = Ok bs /\ _ =>
+      let r := eval vm_compute in e in
+      match r with Ok ?b => exists b end
+  end.
+(* discharge wire-width / length side conditions on concrete data *)
+Ltac wf_ex :=
+  repeat first [ apply Forall_nil | apply Forall_cons | split ];
+  try exact I; vm_compute; try discriminate; try reflexivity.
+
+Definition cz_id : codecs :=
+  {| gz_compress := fun b => b; sn_compress := fun b => b; gz_decompress := fun b => Some b; debug_build := false |}.
+
+Example C09_metadata_frame_ex :
+  let topics := [tag "orders"; tag "payments"] in
+  in_i32 11 /\
+  exists bs, enc_metadata_req 11 (tag "me") topics = Ok bs /\ ulen bs <= i32_max /\
+    parse_frame (frame bs) =
+    Some ({| api_key := 3; api_version := 0; correlation_id := 11; client_id := Some (tag "me") |},
+          MetadataRequest [tag "orders"; tag "payments"]).
+Proof. split; [wf_ex|]. ex_ok. split; [vm_compute; reflexivity|]. split; [wf_ex|vm_compute; reflexivity]. Qed.
+
+Example C09_group_coordinator_frame_ex :
+  exists bs, enc_group_coordinator_req 12 (tag "me") (tag "grp") = Ok bs /\ ulen bs <= i32_max /\
+    parse_frame (frame bs) =
+    Some ({| api_key := 10; api_version := 0; correlation_id := 12; client_id := Some (tag "me") |},
+          GroupCoordinatorRequest (tag "grp")).
+Proof. ex_ok. split; [vm_compute; reflexivity|]. split; [wf_ex|vm_compute; reflexivity]. Qed.
+
+Example C09_offset_frame_ex :
+  let tps := [(tag "a", [(0, -1); (1, -2)]); (tag "b", [(7, 1500000000000)])] in
+  wf_by_topic wf_p32_v64 tps /\
+  exists bs, enc_offset_req 13 (tag "me") tps = Ok bs /\ ulen bs <= i32_max /\
+    parse_frame (frame bs) =
+    Some ({| api_key := 2; api_version := 0; correlation_id := 13; client_id := Some (tag "me") |},
+          OffsetRequest (-1) [(tag "a", [(0, -1, 1); (1, -2, 1)]); (tag "b", [(7, 1500000000000, 1)])]).
+Proof. split; [wf_ex|]. ex_ok. split; [vm_compute; reflexivity|]. split; [wf_ex|vm_compute; reflexivity]. Qed.
+
+Example C09_list_offsets_frame_ex :
+  let tps := [(tag "a", [(0, -1); (1, -2)]); (tag "b", [(7, 1500000000000)])] in
+  wf_by_topic wf_p32_v64 tps /\
+  exists bs, enc_list_offsets_req 14 (tag "me") tps = Ok bs /\ ulen bs <= i32_max /\
+    parse_frame (frame bs) =
+    Some ({| api_key := 2; api_version := 1; correlation_id := 14; client_id := Some (tag "me") |},
+          ListOffsetRequestV1 (-1) tps).
+Proof. split; [wf_ex|]. ex_ok. split; [vm_compute; reflexivity|]. split; [wf_ex|vm_compute; reflexivity]. Qed.
+
+Example C09_offset_fetch_frame_ex :
+  let tps := [(tag "a", [0; 1; 2]); (tag "b", [5])] in
+  wf_by_topic in_i32 tps /\
+  exists bs, enc_offset_fetch_req 15 (tag "me") (tag "grp") 1 tps = Ok bs /\ ulen bs <= i32_max /\
+    parse_frame (frame bs) =
+    Some ({| api_key := 9; api_version := 1; correlation_id := 15; client_id := Some (tag "me") |},
+          OffsetFetchRequest (tag "grp") tps).
+Proof. split; [wf_ex|]. ex_ok. split; [vm_compute; reflexivity|]. split; [wf_ex|vm_compute; reflexivity]. Qed.
+
+(* a fetch request with two topics *)
+Example C09_fetch_frame_ex :
+  let tps := [(tag "t1", [(0, (5, 1000)); (1, (6, 2000))]); (tag "t2", [(3, (0, 32768))])] in
+  wf_fetch tps /\ in_i32 100 /\ in_i32 4096 /\ in_i32 7 /\
+  exists bs, enc_fetch_req 7 (tag "cid") 100 4096 tps = Ok bs /\ ulen bs <= i32_max /\
+    parse_frame (frame bs) =
+    Some ({| api_key := 1; api_version := 0; correlation_id := 7; client_id := Some (tag "cid") |},
+          FetchRequest (-1) 100 4096 [(tag "t1", [(0, 5, 1000); (1, 6, 2000)]); (tag "t2", [(3, 0, 32768)])]).
+Proof.
+  split; [wf_ex|]. split; [wf_ex|]. split; [wf_ex|]. split; [wf_ex|].
+  ex_ok. split; [vm_compute; reflexivity|]. split; [wf_ex|vm_compute; reflexivity].
+Qed.
+
+(* the bytes themselves, for the record *)
+Example C09_fetch_bytes_ex :
+  option_map (@length byte)
+    (match enc_fetch_req 7 (tag "cid") 100 4096 [(tag "t1", [(0, (5, 1000)); (1, (6, 2000))])] with
+     | Ok bs => Some (frame bs) | _ => None end) = Some 73%nat.
+Proof. vm_compute. reflexivity. Qed.
+
+(* a commit v1 *)
+Example C09_offset_commit_v1_frame_ex :
+  let tps := [(tag "t1", [(0, 42); (1, 43)]); (tag "t2", [(9, 0)])] in
+  wf_by_topic wf_p32_v64 tps /\
+  exists bs, enc_offset_commit_req 16 (tag "me") (tag "grp") 1 tps = Ok bs /\ ulen bs <= i32_max /\
+    parse_frame (frame bs) =
+    Some ({| api_key := 8; api_version := 1; correlation_id := 16; client_id := Some (tag "me") |},
+          OffsetCommitRequestV1 (tag "grp") (-1) []
+            [(tag "t1", [(0, 42, -1, Some []); (1, 43, -1, Some [])]); (tag "t2", [(9, 0, -1, Some [])])]).
+Proof. split; [wf_ex|]. ex_ok. split; [vm_compute; reflexivity|]. split; [wf_ex|vm_compute; reflexivity]. Qed.
+
+Example C09_offset_commit_v0_frame_ex :
+  exists bs, enc_offset_commit_req 17 (tag "me") (tag "grp") 0 [(tag "t1", [(0, 42)])] = Ok bs /\ ulen bs <= i32_max /\
+    parse_frame (frame bs) =
+    Some ({| api_key := 8; api_version := 0; correlation_id := 17; client_id := Some (tag "me") |},
+          OffsetCommitRequestV0 (tag "grp") [(tag "t1", [(0, 42, Some [])])]).
+Proof. ex_ok. split; [vm_compute; reflexivity|]. split; [wf_ex|vm_compute; reflexivity]. Qed.
+
+Example C09_offset_commit_v2_frame_ex :
+  exists bs, enc_offset_commit_req 18 (tag "me") (tag "grp") 2 [(tag "t1", [(0, 42)])] = Ok bs /\ ulen bs <= i32_max /\
+    parse_frame (frame bs) =
+    Some ({| api_key := 8; api_version := 2; correlation_id := 18; client_id := Some (tag "me") |},
+          OffsetCommitRequestV2 (tag "grp") (-1) [] (-1) [(tag "t1", [(0, 42, Some [])])]).
+Proof. ex_ok. split; [vm_compute; reflexivity|]. split; [wf_ex|vm_compute; reflexivity]. Qed.
+
+Example C09_offset_commit_panic_ex :
+  enc_offset_commit_req 1 (tag "me") (tag "grp") 3 [] = Panic (tag "Unknown offset commit version code").
+Proof. vm_compute. reflexivity. Qed.
+
+(* produce: two topics, a null key, acks = -1; uncompressed and "gzip" (identity oracle) *)
+Example C09_produce_frame_ex :
+  let tps := [(tag "t1", [(0, [(None, Some (tag "v1")); (Some (tag "k"), Some (tag "v2"))]); (2, [(None, None)])]);
+              (tag "t2", [(1, [(Some (tag "k3"), Some (tag "v3"))])])] in
+  wf_produce tps /\ in_i16 (-1) /\ in_i32 30000 /\
+  exists bs, enc_produce_req cz_id 19 (tag "me") (-1) 30000 COMPRESSION_NONE tps = Ok bs /\ ulen bs <= i32_max /\
+    parse_frame (frame bs) =
+    Some ({| api_key := 0; api_version := 0; correlation_id := 19; client_id := Some (tag "me") |},
+          ProduceRequest (-1) 30000 (abs_by_topic (abs_produce_part cz_id COMPRESSION_NONE) tps)).
+Proof.
+  split; [wf_ex|]. split; [wf_ex|]. split; [wf_ex|].
+  ex_ok. split; [vm_compute; reflexivity|]. split; [wf_ex|vm_compute; reflexivity].
+Qed.
+
+Example C09_produce_gzip_frame_ex :
+  let tps := [(tag "t1", [(0, [(None, Some (tag "v1")); (Some (tag "k"), Some (tag "v2"))])])] in
+  exists bs, enc_produce_req cz_id 20 (tag "me") 1 30000 COMPRESSION_GZIP tps = Ok bs /\ ulen bs <= i32_max /\
+    parse_frame (frame bs) =
+    Some ({| api_key := 0; api_version := 0; correlation_id := 20; client_id := Some (tag "me") |},
+          ProduceRequest 1 30000 (abs_by_topic (abs_produce_part cz_id COMPRESSION_GZIP) tps)).
+Proof. cbv zeta. ex_ok. split; [vm_compute; reflexivity|]. split; [wf_ex|vm_compute; reflexivity]. Qed.
+
+(* the message-set field really is non-trivial: 2 messages of 26+2 and 26+1+2 bytes *)
+Example C09_produce_message_set_ex :
+  length (message_set_bytes cz_id COMPRESSION_NONE [(None, Some (tag "v1")); (Some (tag "k"), Some (tag "v2"))]) = 57%nat.
+Proof. vm_compute. reflexivity. Qed.
+
+(* rejects: a 32768-byte string *)
+Definition long_string : bytes := repeat x61 (Z.to_nat 32768).
+
+Example C09_group_coordinator_reject_ex :
+  enc_group_coordinator_req 1 (tag "me") long_string = Err ECodec /\ long_str long_string.
+Proof. split; vm_compute; reflexivity. Qed.
+Example C09_metadata_reject_ex :
+  enc_metadata_req 1 (tag "me") [tag "ok"; long_string] = Err ECodec /\ Exists long_str [tag "ok"; long_string].
+Proof. split; [vm_compute; reflexivity|]. right. left. vm_compute. reflexivity. Qed.
+Example C09_fetch_reject_ex :
+  enc_fetch_req 1 long_string 100 4096 [(tag "t", [(0, (0, 1))])] = Err ECodec.
+Proof. vm_compute. reflexivity. Qed.
+Example C09_offset_reject_ex : enc_offset_req 1 (tag "me") [(long_string, [(0, -1)])] = Err ECodec.
+Proof. vm_compute. reflexivity. Qed.
+Example C09_list_offsets_reject_ex : enc_list_offsets_req 1 (tag "me") [(long_string, [(0, -1)])] = Err ECodec.
+Proof. vm_compute. reflexivity. Qed.
+Example C09_offset_fetch_reject_ex : enc_offset_fetch_req 1 (tag "me") long_string 1 [] = Err ECodec.
+Proof. vm_compute. reflexivity. Qed.
+Example C09_offset_commit_reject_ex : enc_offset_commit_req 1 (tag "me") long_string 2 [] = Err ECodec.
+Proof. vm_compute. reflexivity. Qed.
+Example C09_produce_reject_ex :
+  enc_produce_req cz_id 1 (tag "me") 1 100 COMPRESSION_NONE [(long_string, [(0, [(None, None)])])] = Err ECodec.
+Proof. vm_compute. reflexivity. Qed.
+
+(* ok_iff: both sides hold on a concrete input *)
+Example C09_offset_commit_ok_iff_ex :
+  (0 = 0 \/ 0 = 1 \/ 0 = 2) /\ ulen (tag "me") <= i16_max /\ ulen (tag "grp") <= i16_max /\
+  tps_fit [(tag "t1", [(0, 42)])].
+Proof. split; [left; reflexivity|]. wf_ex. Qed.
+
+(* a negative size prefix is not a frame; trailing garbage is not a frame *)
+Example C09_parse_frame_rejects_garbage :
+  parse_frame (frame [x00; x03; x00; x00; x00; x00; x00; x01; xff; xff; x00; x00; x00; x00; x00]) = None /\
+  parse_frame (frame [x00; x03; x00; x00; x00; x00; x00; x01; xff; xff; x00; x00; x00; x00]) =
+    Some ({| api_key := 3; api_version := 0; correlation_id := 1; client_id := None |}, MetadataRequest []).
+Proof. split; vm_compute; reflexivity. Qed.
+
+(* the well-formedness hypotheses are needed: integers are truncated to their wire width
+   silently (partition 2^32+1 goes out as partition 1), and enc_offset_fetch_req writes
+   whatever version it is given *)
+Example C09_fetch_wf_needed_ex :
+  match enc_fetch_req 7 (tag "cid") 100 4096 [(tag "t", [(4294967297, (5, 1000))])] with
+  | Ok bs => parse_frame (frame bs) | _ => None end =
+  Some ({| api_key := 1; api_version := 0; correlation_id := 7; client_id := Some (tag "cid") |},
+        FetchRequest (-1) 100 4096 [(tag "t", [(1, 5, 1000)])]).
+Proof. vm_compute. reflexivity. Qed.
+Example C09_offset_fetch_version_needed_ex :
+  match enc_offset_fetch_req 7 (tag "cid") (tag "g") 5 [] with
+  | Ok bs => parse_frame (frame bs) | _ => None end = None.
+Proof. vm_compute. reflexivity. Qed.
+
+(* ======================================================================= *)
+Print Assumptions C09_metadata_frame.
+Print Assumptions C09_metadata_reject.
+Print Assumptions C09_metadata_no_panic.
+Print Assumptions C09_metadata_ok_iff.
+Print Assumptions C09_group_coordinator_frame.
+Print Assumptions C09_group_coordinator_reject.
+Print Assumptions C09_group_coordinator_no_panic.
+Print Assumptions C09_group_coordinator_ok_iff.
+Print Assumptions C09_offset_frame.
+Print Assumptions C09_offset_reject.
+Print Assumptions C09_offset_no_panic.
+Print Assumptions C09_offset_ok_iff.
+Print Assumptions C09_list_offsets_frame.
+Print Assumptions C09_list_offsets_reject.
+Print Assumptions C09_list_offsets_no_panic.
+Print Assumptions C09_list_offsets_ok_iff.
+Print Assumptions C09_offset_fetch_frame.
+Print Assumptions C09_offset_fetch_reject.
+Print Assumptions C09_offset_fetch_no_panic.
+Print Assumptions C09_offset_fetch_ok_iff.
+Print Assumptions C09_fetch_frame.
+Print Assumptions C09_fetch_reject.
+Print Assumptions C09_fetch_no_panic.
+Print Assumptions C09_fetch_ok_iff.
+Print Assumptions C09_offset_commit_frame.
+Print Assumptions C09_offset_commit_v0_frame.
+Print Assumptions C09_offset_commit_v1_frame.
+Print Assumptions C09_offset_commit_v2_frame.
+Print Assumptions C09_offset_commit_reject.
+Print Assumptions C09_offset_commit_panic_iff.
+Print Assumptions C09_offset_commit_ok_iff.
+Print Assumptions C09_produce_frame.
+Print Assumptions C09_produce_partition_bytes.
+Print Assumptions C09_produce_reject.
+Print Assumptions C09_produce_no_panic.
+Print Assumptions C09_frame_oversize.
+Print Assumptions C09_corr_increases.
+Print Assumptions C09_corr_in_i32.
+Print Assumptions C09_corr_sequence.
+Print Assumptions C09_corr_wrap_refuted.
